@@ -1338,3 +1338,179 @@ Theorem C05_core_bcdd_example :
       (Core.kacts_list CoreProgressExamples.kb_sched CoreProgressExamples.kb_results) = Some (Core.kproj s).
 Proof. exact CoreProgressExamples.kb_run. Qed.
 Print Assumptions C05_core_bcdd_example.
+
+(** ** GCTHREAD: the background-collector protocol of the index-based manager (Mgr/GcThread.v,
+    notes/GCTHREAD.md): interleaving model of gc_signal / gc_state / gc_ongoing / the manager lock *)
+From Coq Require Import List ZArith NArith.
+From OxiVerif Require Mgr.Alloc Mgr.GcThread Mgr.GcThreadProofs Mgr.GcThreadThms Mgr.GcThreadExamples.
+
+(* the trigger rule of this model is the one of the allocator model (which the ALLOC run compares with the real `gc_state` after `get_slot_from_shared`) *)
+Theorem C05_gcthread_trigger_rule_alloc : forall c v s t l d s' o,
+  Alloc.get_slot_from_shared c v s t l d = Some (s', o) ->
+  Alloc.s_gc (Alloc.sh s') = GcThread.trigger_rule c (Alloc.s_gc (Alloc.sh s)) (Alloc.s_count (Alloc.sh s')).
+Proof. exact GcThreadProofs.trigger_rule_alloc. Qed.
+Print Assumptions C05_gcthread_trigger_rule_alloc.
+
+(* the reset rule is the one of the allocator model's collector epilogue *)
+Theorem C05_gcthread_reset_rule_alloc : forall c s t l,
+  Alloc.s_gc (Alloc.sh (fst (Alloc.gc_flush c s t l))) =
+  GcThread.reset_rule c (Alloc.s_gc (Alloc.sh s)) (Alloc.s_count (Alloc.sh (fst (Alloc.gc_flush c s t l)))).
+Proof. exact GcThreadProofs.reset_rule_alloc. Qed.
+Print Assumptions C05_gcthread_reset_rule_alloc.
+
+(* (c) `gc_state` becomes `Triggered` iff a `get_slot_from_shared` finds the state `Init` and the count at or above `gc_hwm` *)
+Theorem C05_gcthread_trigger_iff : forall c s a s', GcThread.step c s a = Some s' ->
+  ((GcThread.g_gc s <> Alloc.GTriggered /\ GcThread.g_gc s' = Alloc.GTriggered) <->
+   exists t d, a = GcThread.AAlloc t d /\ GcThread.g_gc s = Alloc.GInit /\ (Alloc.hwm c <= GcThread.g_cnt s + d)%Z).
+Proof. exact GcThreadThms.trigger_iff. Qed.
+Print Assumptions C05_gcthread_trigger_iff.
+
+(* (c) the sleeping collector is woken exactly by that allocation or by the `Quit` of the last handle *)
+Theorem C05_gcthread_wake_iff : forall c s a s', GcThread.step c s a = Some s' -> GcThread.g_cpc s = GcThread.CWaiting ->
+  (GcThread.g_cpc s' = GcThread.CWoken <->
+   (exists t d, a = GcThread.AAlloc t d /\ GcThread.g_gc s = Alloc.GInit /\ (Alloc.hwm c <= GcThread.g_cnt s + d)%Z) \/
+   (a = GcThread.ADropBegin /\ GcThread.g_refs s = 1)).
+Proof. exact GcThreadThms.wake_iff. Qed.
+Print Assumptions C05_gcthread_wake_iff.
+
+(* (c) `notify_one` while the collector is not inside `wait` is lost *)
+Theorem C05_gcthread_notify_lost : forall c s t d s', GcThread.step c s (GcThread.AAlloc t d) = Some s' -> GcThread.g_cpc s <> GcThread.CWaiting ->
+  GcThread.g_cpc s' = GcThread.g_cpc s.
+Proof. exact GcThreadThms.notify_lost. Qed.
+Print Assumptions C05_gcthread_notify_lost.
+
+(* (b/c) from its wake-up test to the end of its epilogue the collector sees `gc_state == Triggered` *)
+Theorem C05_gcthread_coll_active_triggered : forall c s, GcThreadProofs.reachable c s -> GcThread.active s = true -> GcThread.g_gc s = Alloc.GTriggered.
+Proof. exact GcThreadThms.coll_active_triggered. Qed.
+Print Assumptions C05_gcthread_coll_active_triggered.
+
+(* (d) `gc_state` returns to `Init` iff the collector's epilogue finds the count below `gc_lwm` *)
+Theorem C05_gcthread_reset_iff : forall c s a s', GcThread.step c s a = Some s' ->
+  ((GcThread.g_gc s <> Alloc.GInit /\ GcThread.g_gc s' = Alloc.GInit) <->
+   exists d, a = GcThread.CEpilogue d /\ GcThread.g_cpc s = GcThread.CEpi /\ GcThread.g_gc s = Alloc.GTriggered /\ (GcThread.g_cnt s + d < Alloc.lwm c)%Z).
+Proof. exact GcThreadThms.reset_iff. Qed.
+Print Assumptions C05_gcthread_reset_iff.
+
+(* (d) from `Triggered` to `Init`: the schedule contains such an epilogue *)
+Theorem C05_gcthread_resume_needs_epilogue : forall c sched s s', GcThread.run c s sched = Some s' ->
+  GcThread.g_gc s = Alloc.GTriggered -> GcThread.g_gc s' = Alloc.GInit ->
+  exists pre d post s1 s2, sched = pre ++ GcThread.CEpilogue d :: post /\ GcThread.run c s pre = Some s1 /\
+    GcThread.step c s1 (GcThread.CEpilogue d) = Some s2 /\ GcThread.g_cpc s1 = GcThread.CEpi /\ GcThread.g_gc s1 = Alloc.GTriggered /\
+    (GcThread.g_cnt s1 + d < Alloc.lwm c)%Z /\ GcThread.g_gc s2 = Alloc.GInit.
+Proof. exact GcThreadThms.resume_needs_epilogue. Qed.
+Print Assumptions C05_gcthread_resume_needs_epilogue.
+
+(* (d) in `Triggered` the collector is on its way to an epilogue or the state is stuck *)
+Theorem C05_gcthread_triggered_dichotomy : forall s, GcThread.g_gc s = Alloc.GTriggered -> GcThread.active s = true \/ GcThread.stuck s = true.
+Proof. exact GcThreadThms.triggered_dichotomy. Qed.
+Print Assumptions C05_gcthread_triggered_dichotomy.
+
+(* (d) stuck is absorbing: `gc_state` stays `Triggered`, the collector never starts a collection again, whatever any thread does *)
+Theorem C05_gcthread_stuck_forever : forall c sched s s', GcThread.stuck s = true -> GcThread.run c s sched = Some s' ->
+  GcThread.stuck s' = true /\ GcThread.g_gc s' = Alloc.GTriggered /\ GcThread.g_bgcount s' = GcThread.g_bgcount s.
+Proof. exact GcThreadThms.stuck_forever. Qed.
+Print Assumptions C05_gcthread_stuck_forever.
+
+(* (d) the ways into a stuck state: lost notification, epilogue at or above `gc_lwm`, quit *)
+Theorem C05_gcthread_stuck_entry : forall c s a s', GcThreadProofs.Inv c s -> GcThread.step c s a = Some s' ->
+  GcThread.stuck s = false -> GcThread.stuck s' = true ->
+  (exists t d, a = GcThread.AAlloc t d /\ GcThread.g_gc s = Alloc.GInit /\ (Alloc.hwm c <= GcThread.g_cnt s + d)%Z /\
+     (GcThread.g_cpc s <> GcThread.CWaiting \/ GcThread.g_sig s = GcThread.SQuit)) \/
+  (exists d, a = GcThread.CEpilogue d /\ GcThread.g_gc s = Alloc.GTriggered /\ (Alloc.lwm c <= GcThread.g_cnt s + d)%Z) \/
+  (a = GcThread.CCheck /\ GcThread.g_sig s = GcThread.SQuit) \/
+  (a = GcThread.ADropBegin /\ GcThread.g_refs s = 1 /\ GcThread.g_cpc s = GcThread.CWoken).
+Proof. exact GcThreadThms.stuck_entry. Qed.
+Print Assumptions C05_gcthread_stuck_entry.
+
+(* (d) OBSERVATION (outside the property texts): "automatic collection eventually runs again" is false of the code: after a sweep that ends at or above `gc_lwm` the state stays `Triggered` although the count falls to 0 and reaches `gc_hwm` again; control run next to it *)
+Theorem C05_gcthread_auto_gc_off :
+  GcThread.run GcThreadExamples.gx_cfg (GcThread.init GcThreadExamples.gx_cfg 1) GcThreadExamples.gx_sched_off = Some GcThreadExamples.gx_off_end /\
+  GcThreadProofs.reachable GcThreadExamples.gx_cfg GcThreadExamples.gx_off_end /\
+  (* the count was 0 < gc_lwm in between and is 195 >= gc_hwm now *)
+  (exists s, GcThread.run GcThreadExamples.gx_cfg (GcThread.init GcThreadExamples.gx_cfg 1) (firstn 13 GcThreadExamples.gx_sched_off) = Some s /\ GcThread.g_cnt s = 0%Z /\
+             GcThread.g_gc s = Alloc.GTriggered) /\
+  GcThread.stuck GcThreadExamples.gx_off_end = true /\ GcThread.g_cpc GcThreadExamples.gx_off_end = GcThread.CWaiting /\ GcThread.g_bgcount GcThreadExamples.gx_off_end = 1%N /\
+  (* for ever: whatever any thread does, `gc_state` stays `Triggered` and the collector thread
+     never starts another collection *)
+  (forall sched s', GcThread.run GcThreadExamples.gx_cfg GcThreadExamples.gx_off_end sched = Some s' ->
+     GcThread.g_gc s' = Alloc.GTriggered /\ GcThread.g_bgcount s' = 1%N) /\
+  (* the control GcThread.run: the collector is woken a second time *)
+  GcThread.run GcThreadExamples.gx_cfg (GcThread.init GcThreadExamples.gx_cfg 1) GcThreadExamples.gx_sched_on = Some GcThreadExamples.gx_on_end /\ GcThread.active GcThreadExamples.gx_on_end = true.
+Proof. exact GcThreadExamples.gx_auto_gc_off. Qed.
+Print Assumptions C05_gcthread_auto_gc_off.
+
+(* (d) OBSERVATION: a trigger while the collector is not inside `wait` (before its first `wait`, or between epilogue and `wait`) is lost for good *)
+Theorem C05_gcthread_lost_wakeup :
+  GcThread.run GcThreadExamples.gx_cfg (GcThread.init GcThreadExamples.gx_cfg 1) GcThreadExamples.gx_sched_lost = Some GcThreadExamples.gx_lost_end /\ GcThread.stuck GcThreadExamples.gx_lost_end = true /\
+  (forall sched s', GcThread.run GcThreadExamples.gx_cfg GcThreadExamples.gx_lost_end sched = Some s' -> GcThread.g_gc s' = Alloc.GTriggered /\ GcThread.g_bgcount s' = 0%N) /\
+  GcThread.run GcThreadExamples.gx_cfg (GcThread.init GcThreadExamples.gx_cfg 1) GcThreadExamples.gx_sched_lost2 = Some GcThreadExamples.gx_lost2_end /\ GcThread.stuck GcThreadExamples.gx_lost2_end = true /\
+  (forall sched s', GcThread.run GcThreadExamples.gx_cfg GcThreadExamples.gx_lost2_end sched = Some s' -> GcThread.g_gc s' = Alloc.GTriggered /\ GcThread.g_bgcount s' = 1%N).
+Proof. exact GcThreadExamples.gx_lost_wakeup. Qed.
+Print Assumptions C05_gcthread_lost_wakeup.
+
+(* (e) `Quit` is stored iff a handle is dropped that sees `strong_count == 2` *)
+Theorem C05_gcthread_quit_sent_iff : forall c s a s', GcThread.step c s a = Some s' -> GcThread.g_sig s = GcThread.SRun ->
+  (GcThread.g_sig s' = GcThread.SQuit <-> a = GcThread.ADropBegin /\ GcThread.g_refs s = 1).
+Proof. exact GcThreadThms.quit_sent_iff. Qed.
+Print Assumptions C05_gcthread_quit_sent_iff.
+
+(* (e) the exact condition under which the quit is seen: the collector is inside `wait` (or notified) at that moment; otherwise it is missed *)
+Theorem C05_gcthread_quit_outcome : forall c s s', GcThreadProofs.Inv c s -> GcThread.step c s GcThread.ADropBegin = Some s' ->
+  GcThread.g_sig s = GcThread.SRun -> GcThread.g_refs s = 1 ->
+  GcThread.g_sig s' = GcThread.SQuit /\ GcThread.usable s' = 0 /\
+  (GcThread.quit_seen s' = true <-> (GcThread.g_cpc s = GcThread.CWaiting \/ GcThread.g_cpc s = GcThread.CWoken)) /\
+  (GcThread.quit_missed s' = true <-> ~ (GcThread.g_cpc s = GcThread.CWaiting \/ GcThread.g_cpc s = GcThread.CWoken)).
+Proof. exact GcThreadThms.quit_outcome. Qed.
+Print Assumptions C05_gcthread_quit_outcome.
+
+(* (e) seen is absorbing *)
+Theorem C05_gcthread_quit_seen_forever : forall c sched s s', GcThread.quit_seen s = true -> GcThread.run c s sched = Some s' ->
+  GcThread.quit_seen s' = true.
+Proof. exact GcThreadThms.quit_seen_forever. Qed.
+Print Assumptions C05_gcthread_quit_seen_forever.
+
+(* (e) ... and the collector's only step is the `break` *)
+Theorem C05_gcthread_quit_seen_exits : forall c s, GcThread.quit_seen s = true -> GcThread.g_cpc s = GcThread.CWoken ->
+  (exists s', GcThread.step c s GcThread.CCheck = Some s' /\ GcThread.g_cpc s' = GcThread.CExit) /\
+  (forall a, GcThread.is_coll a = true -> a <> GcThread.CCheck -> GcThread.step c s a = None).
+Proof. exact GcThreadThms.quit_seen_exits. Qed.
+Print Assumptions C05_gcthread_quit_seen_exits.
+
+(* (e) missed is absorbing: the collector never terminates *)
+Theorem C05_gcthread_quit_missed_forever : forall c sched s s', GcThread.quit_missed s = true -> GcThread.run c s sched = Some s' ->
+  GcThread.quit_missed s' = true /\ GcThread.g_cpc s' <> GcThread.CExit.
+Proof. exact GcThreadThms.quit_missed_forever. Qed.
+Print Assumptions C05_gcthread_quit_missed_forever.
+
+(* (e) a collector inside `wait` has no step of its own *)
+Theorem C05_gcthread_waiting_no_coll_step : forall c s a, GcThread.g_cpc s = GcThread.CWaiting -> GcThread.is_coll a = true -> GcThread.step c s a = None.
+Proof. exact GcThreadThms.waiting_no_coll_step. Qed.
+Print Assumptions C05_gcthread_waiting_no_coll_step.
+
+(* (e) no usable handle and the collector inside `wait`: it sleeps for ever *)
+Theorem C05_gcthread_asleep_forever : forall c sched s s', GcThread.usable s = 0 -> GcThread.g_cpc s = GcThread.CWaiting ->
+  GcThread.run c s sched = Some s' -> GcThread.g_cpc s' = GcThread.CWaiting /\ GcThread.usable s' = 0 /\ GcThread.g_sig s' = GcThread.g_sig s.
+Proof. exact GcThreadThms.asleep_forever. Qed.
+Print Assumptions C05_gcthread_asleep_forever.
+
+(* (e) OBSERVATION: the last handle dropped before the collector waits / while it collects: thread and store leak; control run *)
+Theorem C05_gcthread_missed_quit :
+  GcThread.run GcThreadExamples.gx_cfg (GcThread.init GcThreadExamples.gx_cfg 0) GcThreadExamples.gx_sched_quit_early = Some GcThreadExamples.gx_quit_early_end /\
+  GcThread.quit_missed GcThreadExamples.gx_quit_early_end = true /\
+  (forall sched s', GcThread.run GcThreadExamples.gx_cfg GcThreadExamples.gx_quit_early_end sched = Some s' ->
+     GcThread.g_cpc s' = GcThread.CWaiting /\ GcThread.g_sig s' = GcThread.SQuit /\ GcThread.usable s' = 0) /\
+  GcThread.run GcThreadExamples.gx_cfg (GcThread.init GcThreadExamples.gx_cfg 1) GcThreadExamples.gx_sched_quit_busy = Some GcThreadExamples.gx_quit_busy_end /\
+  GcThread.quit_missed GcThreadExamples.gx_quit_busy_end = true /\
+  (forall sched s', GcThread.run GcThreadExamples.gx_cfg GcThreadExamples.gx_quit_busy_end sched = Some s' ->
+     GcThread.g_cpc s' = GcThread.CWaiting /\ GcThread.g_sig s' = GcThread.SQuit /\ GcThread.usable s' = 0) /\
+  GcThread.run GcThreadExamples.gx_cfg (GcThread.init GcThreadExamples.gx_cfg 0) GcThreadExamples.gx_sched_quit_ok = Some GcThreadExamples.gx_quit_ok_end /\ GcThread.g_cpc GcThreadExamples.gx_quit_ok_end = GcThread.CExit.
+Proof. exact GcThreadExamples.gx_missed_quit. Qed.
+Print Assumptions C05_gcthread_missed_quit.
+
+(* (e) OBSERVATION: two handles dropped concurrently both read `strong_count == 3`: `Quit` is never stored *)
+Theorem C05_gcthread_drop_race :
+  GcThread.run GcThreadExamples.gx_cfg (GcThread.init GcThreadExamples.gx_cfg 0) GcThreadExamples.gx_sched_drop_race = Some GcThreadExamples.gx_drop_race_end /\
+  (forall sched s', GcThread.run GcThreadExamples.gx_cfg GcThreadExamples.gx_drop_race_end sched = Some s' ->
+     GcThread.g_cpc s' = GcThread.CWaiting /\ GcThread.g_sig s' = GcThread.SRun /\ GcThread.usable s' = 0).
+Proof. exact GcThreadExamples.gx_drop_race. Qed.
+Print Assumptions C05_gcthread_drop_race.
